@@ -1,4 +1,4 @@
-SPECIFICATION GenSpec
+SPECIFICATION TSpec
 CONSTANTS
   W = 8
   CH = 2
@@ -10,4 +10,6 @@ CONSTANTS
   Stepped = TRUE
   Dir = "fwd"
 CHECK_DEADLOCK FALSE
-INVARIANTS PrintSched
+INVARIANT NotAccepted
+CONSTRAINT Track
+POSTCONDITION Post
